@@ -10,6 +10,7 @@ DST=/verif/seeded/$ID
 if [ "${ROUND:-1}" = "2" ]; then WT=/tmp/w2-$ID; DST=/verif/seeded/$ID-r2; fi
 if [ "${ROUND:-1}" = "3" ]; then WT=/tmp/w3-$ID; DST=/verif/seeded/$ID-r3; fi
 if [ "${ROUND:-1}" = "4" ]; then WT=/tmp/w4-$ID; DST=/verif/seeded/$ID-r4; fi
+if [ "${ROUND:-1}" -ge 5 ]; then WT=/tmp/w${ROUND}-$ID; DST=/verif/seeded/$ID-r${ROUND}; fi
 SRC=$WT/_seed
 export GOFLAGS=-mod=mod GOPROXY=off GOSUMDB=off GOTOOLCHAIN=local
 mkdir -p "$DST"
@@ -27,32 +28,32 @@ cp "$DEMO" "$W/$REL"
 PKG="./$(dirname "$REL")/"
 RUNPAT=$(grep -o 'func Test[A-Za-z0-9_]*' "$DEMO" | sed 's/func //' | paste -sd'|')
 echo "demo: $REL pkg=$PKG tests=$RUNPAT"
-go test -vet=off -count=1 -run "$RUNPAT" "$PKG" >/tmp/vs_without.log 2>&1; WITHOUT=$?
+go test -vet=off -count=1 -run "$RUNPAT" "$PKG" >/tmp/vs_${ID}_without.log 2>&1; WITHOUT=$?
 if [ "${ROUND:-1}" -ge 3 ] && [ $WITHOUT = 0 ]; then # race demonstrations: must pass every time without the change
-  for k in 2 3; do go test -vet=off -count=1 -run "$RUNPAT" "$PKG" >/tmp/vs_without.log 2>&1 || WITHOUT=$?; done
+  for k in 2 3; do go test -vet=off -count=1 -run "$RUNPAT" "$PKG" >/tmp/vs_${ID}_without.log 2>&1 || WITHOUT=$?; done
 fi
 git apply --whitespace=nowarn "$DST/patch.diff" || { echo "PATCH DOES NOT APPLY to current HEAD"; exit 3; }
 go build ./... || { echo "DOES NOT BUILD"; exit 3; }
-go test -vet=off -count=1 -run "$RUNPAT" "$PKG" >/tmp/vs_with.log 2>&1; WITH=$?
+go test -vet=off -count=1 -run "$RUNPAT" "$PKG" >/tmp/vs_${ID}_with.log 2>&1; WITH=$?
 if [ "${ROUND:-1}" -ge 3 ] && [ $WITH = 0 ]; then # race demonstrations may need more than one run to fail
-  for k in 2 3; do go test -vet=off -count=1 -run "$RUNPAT" "$PKG" >/tmp/vs_with.log 2>&1 || { WITH=$?; break; }; done
+  for k in 2 3; do go test -vet=off -count=1 -run "$RUNPAT" "$PKG" >/tmp/vs_${ID}_with.log 2>&1 || { WITH=$?; break; }; done
 fi
-mv "$W/$REL" /tmp/vs_demo_hold.go
+mv "$W/$REL" /tmp/vs_${ID}_demo_hold.go
 # ./actor/ has a rare baseline panic ("negative WaitGroup counter" / "send on closed channel"): a real failure
 # shows as a "--- FAIL" line; retry up to 3 times for a clean pass
 T1=1
 for try in 1 2 3; do
-  go test -vet=off -count=1 ./seat_manager/ ./open_game_manager/ ./actor/ >/tmp/vs_tests.log 2>&1 && { T1=0; break; }
-  grep -q -e '--- FAIL' /tmp/vs_tests.log && { T1=2; break; }
+  go test -vet=off -count=1 ./seat_manager/ ./open_game_manager/ ./actor/ >/tmp/vs_${ID}_tests.log 2>&1 && { T1=0; break; }
+  grep -q -e '--- FAIL' /tmp/vs_${ID}_tests.log && { T1=2; break; }
 done
 # the testcases package is flaky at baseline ("Fail in goroutine after <Test> has completed" panics): a real
 # failure shows as a "--- FAIL" line; retry up to 3 times for a clean pass
 T2=1
 for try in 1 2 3; do
-  go test -vet=off -count=1 -run 'TestTableGame_Flop_Settlement|TestTableGame_Two_People|TestTableGame_Turn_Settlement' ./testcases/ >/tmp/vs_tc.log 2>&1 && { T2=0; break; }
-  grep -q -e '--- FAIL' /tmp/vs_tc.log && { T2=2; break; }
+  go test -vet=off -count=1 -run 'TestTableGame_Flop_Settlement|TestTableGame_Two_People|TestTableGame_Turn_Settlement' ./testcases/ >/tmp/vs_${ID}_tc.log 2>&1 && { T2=0; break; }
+  grep -q -e '--- FAIL' /tmp/vs_${ID}_tc.log && { T2=2; break; }
 done
-cat /tmp/vs_tc.log >>/tmp/vs_tests.log
+cat /tmp/vs_${ID}_tc.log >>/tmp/vs_${ID}_tests.log
 echo "demo without patch: exit $WITHOUT (want 0); with patch: exit $WITH (want !=0); existing tests with patch: $T1/$T2 (want 0/0)"
 {
   echo "verified on $(date -u +%Y-%m-%dT%H:%MZ) against /repo $(git -C /repo log --format=%h -1) by tools/verify_seed.sh"
